@@ -614,7 +614,7 @@ func (w *cwriter) code(ss []*Stmt) {
 					w.unused([]string{s.S})
 				}
 				if c.CommDecl != "" {
-					w.unused([]string{c.CommDecl})
+					w.unused(strings.Split(c.CommDecl, ", "))
 				}
 				w.code(c.Body)
 				if c.Fall {
